@@ -17,6 +17,21 @@ def inside(B, p, n):
     return p >= 0 and n >= 0 and p + n <= 8 * len(B)
 
 
+def twos(u, n):
+    """two's-complement reading of the n-bit unsigned value u"""
+    return ite(u >= pow2(n - 1), u - pow2(n), u)
+
+
+def int_decode(u, n, enc, order):
+    """C04: value of an integer field whose n bits, read big-endian and unsigned, are u"""
+    return ite(enc == 'unsigned', byte_ordered(u, n, order), twos(byte_ordered(u, n, order), n))
+
+
+def byte_ordered(u, n, order):
+    """honour the declared byte order: least-significant-byte-first fields are the little-endian value of their bytes"""
+    return ite(order == 'leastSignificantByteFirst', le(tb(u, ceil8(n))), u)
+
+
 # ---- lemma schemas (instantiated explicitly through contract `hints`; each is checked concretely by
 # ---- pyvc/conformance.py on random arguments and stated in lean/PyVC.lean) ------------------------------------------
 
